@@ -88,7 +88,51 @@ def c14(c):
     c.cov['replay_counters'] = total['counters']
 
 
-CHECKS = {'C14': c14}
+def _absorb_sp(c, res, total):
+    c.absorb(res)
+    total['executed'] += res['executed']
+    total['completed'] += res['completed']
+    c.cov['distinct_nontrivial'] += res['nontrivial']
+    for k, v in (res.get('counters') or {}).items():
+        total['counters'][k] = total['counters'].get(k, 0) + v
+
+
+def c25(c):
+    quick = c.tier == 'quick'
+    total = {'executed': 0, 'completed': 0, 'counters': {}}
+    binp = c.go_build('keyed')
+    # 1. design check of the reference (safety: action properties on every frame + invariants; liveness under
+    #    weak fairness of worker / publisher / revoker / track completion with the refresh timer on, no constraint)
+    cfgs = ['quick.cfg', 'quick_vl.cfg'] if quick else ['thorough.cfg', 'thorough_vl.cfg', 'quick.cfg']
+    _exhaustive_parallel(c, 'SharedPoll', 'SharedPoll', cfgs, workers=2 if quick else 3)
+    _exhaustive_parallel(c, 'SharedPoll', 'SharedPoll', ['live.cfg', 'live_vl.cfg'], workers=2)
+    # 2. deviations of the code from the reference found by TLC: replay each counterexample on the real code
+    for cfg in ('ascoded_flip.cfg', 'ascoded_removal.cfg', 'ascoded_epoch.cfg'):
+        w = c.tlc('SharedPoll', 'SharedPoll', cfg, workers=2, timeout=1500, expect_violation=True)
+        wit = _error_trace(w['out']) if not w['ok'] else None
+        if not wit:
+            raise vf.Inconclusive('%s produced no counterexample: %s' % (cfg, w['out'][-1500:]))
+        c.log('TLC counterexample %s: %d steps -> replayed as witness' % (cfg, len(wit) - 1))
+        res = c.harness(binp, 'sharedpoll', {'compare': False, 'versioned': True, 'behaviours': [wit]}, timeout=300)
+        _absorb_sp(c, res, total)
+    # 3. behaviours of the reference replayed with frame comparison
+    n = 500 if quick else 5000
+    for cfg, versioned, k in (('sim_v.cfg', True, n), ('sim_flip.cfg', True, n // 4), ('sim_vl.cfg', False, n // 2)):
+        s = c.tlc('SharedPoll', 'SharedPollSim', cfg, simulate=k, depth=60, timeout=1800)
+        if not s['ok']:
+            raise vf.Inconclusive('simulation %s failed: %s\n%s' % (cfg, s['error'], s['out'][-3000:]))
+        behs = c.behaviours(s)
+        c.log('TLC simulate %s: %d behaviours' % (cfg, len(behs)))
+        res = c.harness(binp, 'sharedpoll', {'compare': True, 'versioned': versioned, 'behaviours': behs}, timeout=1800)
+        _absorb_sp(c, res, total)
+        c.cov['samples'] += res['samples'][:1]
+    c.cov['traces_validated_against_impl'] = total['completed']
+    c.cov['evaluations'] = total['executed']
+    c.cov['replay_counters'] = total['counters']
+
+
+CHECKS = {'C14': c14, 'C25': c25}
 META = {
     'C14': dict(level='model_checking', text='wip', note='wip', technique='wip'),
+    'C25': dict(level='model_checking', text='wip', note='wip', technique='wip'),
 }
